@@ -108,6 +108,29 @@ def absAt : List (Thread L τ) → Nat → τ → τ
 def Cfg.abs (c : Cfg L τ) : Cfg L τ :=
   ⟨fun j => absAt c.threads j (c.st j), c.threads.map (absThread c.st)⟩
 
+/-! ### Method skeletons extracted from source (extractor E3) -/
+
+/-- `who` = 0 for `self`, 1.. for peer objects of the same class; `touch` = statements reading or writing mutable
+    shared fields of that object; `unknown` = something the extractor did not understand (fails every check) -/
+inductive Sk where
+  | acq (who : Nat)
+  | rel (who : Nat)
+  | touch (who : Nat)
+  | unknown
+  deriving Repr, DecidableEq
+
+/-- flat discipline on skeletons: regions bracketed, never nested, shared fields touched only under their lock -/
+def Sk.flat : Option Nat → List Sk → Bool
+  | none, [] => true
+  | some _, [] => false
+  | none, .acq k :: rest => Sk.flat (some k) rest
+  | some _, .acq _ :: _ => false
+  | none, .rel _ :: _ => false
+  | some k, .rel k' :: rest => k == k' && Sk.flat none rest
+  | none, .touch _ :: _ => false
+  | some k, .touch k' :: rest => k == k' && Sk.flat (some k) rest
+  | _, .unknown :: _ => false
+
 /-! ### Region-level view: threads as lists of critical regions, each cut into lines arbitrarily -/
 
 /-- a critical region on lock `k`, cut into an arbitrary list of lines -/
